@@ -1317,6 +1317,8 @@ type tx struct {
 	// current transaction context.
 	tx    *sqlclient.TxClient
 	txrrw migrate.RevisionReadWriter
+	// transaction mode of the file currently executed.
+	fileMode string
 }
 
 // driverFor returns the migrate.Driver to use to execute migration statements.
@@ -1329,6 +1331,7 @@ func (tx *tx) driverFor(ctx context.Context, f migrate.File) (migrate.Driver, mi
 	if err != nil {
 		return nil, nil, err
 	}
+	tx.fileMode = mode
 	switch mode {
 	case txModeNone:
 		return tx.c.Driver, tx.rrw, nil
@@ -1378,7 +1381,7 @@ func (tx *tx) mayRollback(err error) error {
 // mayCommit may commit a transaction depending on the given transaction mode.
 func (tx *tx) mayCommit() error {
 	// Only commit if each file is wrapped in a transaction.
-	if tx.tx != nil && !tx.dryRun && tx.mode == txModeFile {
+	if tx.tx != nil && !tx.dryRun && tx.fileMode == txModeFile {
 		return tx.commit()
 	}
 	return nil
